@@ -67,6 +67,10 @@ CLAIMED['C20'] = dict(
    text='Machine-checked theorems on a state-machine model of deal/_imports.py (activate / deactivate / module_load / DealLoader.exec_module / _get_contracts / _exec_contract): activation is idempotent and reversible and inert when disabled; a module that declares module-load contracts imported without activation raises RuntimeError; a module without declaration imports as without deal; an unsupported declaration is rejected and nothing is registered; a failed import leaves no module registered; plus a machine-checked refutation for aliased declarations (known finding). The model is hand-written with pinned source; random action lists (activate / deactivate / enable / disable / import of freshly generated modules of every declaration form and import-time behaviour) run through the real import system in a fresh process per case and are compared with the model; an independent monitor restates the property.',
    design_ref='DESIGN.md 4.20', note=GENERIC_NOTE + ' importlib is an oracle (a module whose execution raised is not registered); _imports.py is modelled by hand (pinned source + correspondence).',
    technique='Coq proof over a hand-written state-machine model (source-pinned) + differential correspondence through the real import system')
+CLAIMED['C15'] = dict(
+   text='Machine-checked theorems on TestCase.__call__, the wrapper of deal.cases and cases.exceptions regenerated from deal/_testing.py, with hypothesis as an oracle handing over candidates: a candidate reaches the test function iff every precondition accepts it and the case carries exactly that candidate; a rejected candidate is discarded without running the test; executing a case returns the result, NoReturn exactly for an exception admitted by the raises contracts, and propagates everything else as the same object. Seed determinism, explicit kwargs, annotation-driven strategies, counts and example contracts are decided on the implementation only: the real deal.cases is driven over generated annotated functions and every emitted case is checked (paired runs with equal seeds).',
+   design_ref='DESIGN.md 4.15', note=GENERIC_NOTE + ' Partial: the hypothesis engine (strategies, seeds, number of examples) is an oracle, not modelled.',
+   technique='Coq proof over code regenerated from source (hypothesis as oracle) + implementation-level exhaustive check of emitted cases')
 UNCLAIMED_REASON = 'not claimed yet: the Coq model and check for this property are still under construction in this round (no technique switch intended)'
 checks, na = [], []
 for p in props:
